@@ -22,7 +22,7 @@ RULE = ("state = fingerprint of all mutable state a call could leave behind (eve
         "objects (defaults left to default where the API has them); exploration: every operation from the pristine state "
         "(fresh forked process), every two-step history over the whole alphabet, every three-step history over the operations "
         "that receive shared mutable arguments (thorough: every three-step history over the whole alphabet and every four-step history over the shared-argument operations); each step's result is compared with the same operation in isolation and the "
-        "fingerprint with the pristine one; states = distinct fingerprints seen, transitions = operation executions judged; "
+        "pool part of the fingerprint with the pristine one (a change of library-internal state is recorded as a new state, not alarmed on); results that the library returns as containers are scribbled on by the harness after each step, and the pool holds twin inputs (same graph, other kinds; same values, permuted source names) so that aliasing or under-keyed caches change a later answer; states = distinct fingerprints seen, transitions = operation executions judged; "
         "non-trivial = history of length >= 2")
 ASSUMPTIONS = ["the fingerprint covers all reachable Python-level mutable state of the library and the pool; C-level state of numpy/scipy is trusted",
                "each history starts in a freshly forked child of a parent that imported the library and built the pool but called nothing"]
@@ -138,6 +138,13 @@ def build_pool():
                          Branch("2", "3", sh), Branch("3", "0", cs), Branch("3", "0", elm.admittance("Y1", 0.25)), Branch("0", "3", lv), Branch("1", "3", elm.open_circuit("oc"))])
     P["net2"] = Network([Branch("a", "b", elm.current_source("I1", 1)), Branch("a", "b", elm.resistor("Ra", 7)), Branch("b", "c", elm.resistor("Rb", 3)),
                          Branch("c", "a", elm.voltage_source("V2", 4))], node_zero_label="b")
+    # "twin" networks: same labelled graph / same values, but different element kinds or permuted source names - the inputs on
+    # which a cache keyed by too little (graph only, values only) returns another network's answer
+    P["netK1"] = Network([Branch("1", "0", elm.voltage_source("x", 10)), Branch("1", "2", elm.resistor("y", 10)), Branch("2", "0", elm.resistor("z", 20))])
+    P["netK2"] = Network([Branch("1", "0", elm.resistor("x", 10)), Branch("1", "2", elm.voltage_source("y", 5)), Branch("2", "0", elm.resistor("z", 20))])
+    P["netK3"] = Network([Branch("1", "0", elm.current_source("x", 2)), Branch("1", "2", elm.resistor("y", 10)), Branch("2", "0", elm.voltage_source("z", 3, 4))])
+    P["netVa"] = Network([Branch("1", "0", elm.voltage_source("Va", 10)), Branch("2", "0", elm.voltage_source("Vb", 4)), Branch("1", "2", elm.resistor("R12", 2)), Branch("2", "0", elm.resistor("R20", 4))])
+    P["netVb"] = Network([Branch("1", "0", elm.voltage_source("Vb", 10)), Branch("2", "0", elm.voltage_source("Va", 4)), Branch("1", "2", elm.resistor("R12", 2)), Branch("2", "0", elm.resistor("R20", 4))])
     P["keep"] = [vs, sh]                  # one exemption list object shared by all transformer calls
     P["keep2"] = [cs]
     P["netD"] = Network([Branch("1", "0", elm.voltage_source("Vs", 1)), Branch("1", "2", elm.resistor("R", 2)), Branch("2", "0", elm.admittance("C", 0)),
@@ -152,6 +159,9 @@ def build_pool():
     tdesc = {"components": [["dc_voltage_source", "Vs", ["1", "0"], {"V": 2}], ["resistor", "R1", ["1", "2"], {"R": 5}], ["capacitor", "C1", ["2", "0"], {"C": "1/10"}],
                             ["inductance", "L1", ["2", "3"], {"L": "1/2"}], ["resistor", "R2", ["3", "0"], {"R": 3}], ["dc_current_source", "Is", ["0", "3"], {"I": 1}], ["ground", "gnd", ["0"], {}]]}
     P["tcirc"] = adapt.circuit(tdesc)
+    tdesc2 = {"components": [["dc_voltage_source", "Vs", ["1", "0"], {"V": 2}], ["resistor", "R1", ["1", "2"], {"R": 5}], ["inductance", "C1", ["2", "0"], {"L": "1/10"}],
+                             ["capacitor", "L1", ["2", "3"], {"C": "1/2"}], ["resistor", "R2", ["3", "0"], {"R": 3}], ["dc_current_source", "Is", ["0", "3"], {"I": 1}], ["ground", "gnd", ["0"], {}]]}
+    P["tcirc2"] = adapt.circuit(tdesc2)      # twin of tcirc: same ids and nodes, capacitor and inductor exchanged
     P["w_list"] = [0.0, 2.0, 0.5]
     P["w_arr"] = np.array([0.0, 2.0, 0.5])
     P["nodes"] = ["1", "2", "3"]
@@ -208,13 +218,17 @@ def alphabet():
     A = {}
     A["solve_net1"] = lambda P: sol_dump(bpa.nodal_analysis_bias_point_solver(P["net1"]), n1_nodes, n1_ids)
     A["solve_net2"] = lambda P: sol_dump(bpa.nodal_analysis_bias_point_solver(P["net2"]), ["a", "b", "c"], ["I1", "Ra", "Rb", "V2"])
+    for nm in ("netK1", "netK2", "netK3"):
+        A["solve_" + nm] = (lambda nm: (lambda P: sol_dump(bpa.nodal_analysis_bias_point_solver(P[nm]), ["0", "1", "2"], ["x", "y", "z"])))(nm)
+    for nm in ("netVa", "netVb"):
+        A["solve_" + nm] = (lambda nm: (lambda P: sol_dump(bpa.nodal_analysis_bias_point_solver(P[nm]), ["0", "1", "2"], ["Va", "Vb", "R12", "R20"])))(nm)
     A["port_impedance"] = lambda P: [canon(na.open_circuit_impedance(P["net1"], "2", "0")), canon(na.open_circuit_impedance(P["net2"], "a", "c")), canon(na.element_impedance(P["net1"], "R1"))]
     A["thevenin"] = lambda P: [canon(bpa.open_circuit_voltage(P["net1"], "2", "0")), canon(bpa.short_circuit_current(P["net1"], "2", "0")), canon(vars(eqs.TheveninEquivalentSource(P["net2"], "a", "b"))),
                                canon(vars(eqs.NortenEquivalentSource(P["net2"], "a", "b")))]
     A["remove_open"] = lambda P: net_dump(trf.remove_open_circuit_elements(P["net1"]))
     A["remove_element"] = lambda P: net_dump(trf.remove_element(P["net1"], "Z1"))
-    A["switch_ground"] = lambda P: net_dump(trf.switch_ground_node(P["net1"], "2"))
-    A["remove_short_keep"] = lambda P: net_dump(trf.remove_short_circuit_elements(P["net1"], keep=P["keep"]))
+    A["switch_ground"] = lambda P: net_dump(trf.switch_ground_node(P["net1"], "2"))       # (shares its branch list with the input by design: not scribbled)
+    A["remove_short_keep"] = lambda P: Raw(trf.remove_short_circuit_elements(P["net1"], keep=P["keep"]), net_dump)
     A["remove_short_default"] = lambda P: net_dump(trf.remove_short_circuit_elements(P["net1"]))
     A["zero_v_keep"] = lambda P: net_dump(trf.short_circuitify_voltage_sources(P["net1"], keep=P["keep"]))
     A["zero_v_default"] = lambda P: net_dump(trf.short_circuitify_voltage_sources(P["net1"]))
@@ -231,9 +245,10 @@ def alphabet():
     A["nodal_ssm_shared_dicts"] = lambda P: ssm_dump(nodal_state_space_model(P["netD"], c_values=P["c_values"], l_values=P["l_values"]))
     A["nodal_ssm_defaults"] = lambda P: ssm_dump(nodal_state_space_model(P["net2"]))
     A["circuit_ssm"] = lambda P: [canon(getattr(cssm.state_space_model(P["tcirc"], potential_nodes=P["nodes"], voltage_ids=P["ids"], current_ids=P["ids"]), k)) for k in "ABCD"]
+    A["circuit_ssm_twin"] = lambda P: [canon(getattr(cssm.state_space_model(P["tcirc2"], potential_nodes=P["nodes"], voltage_ids=P["ids"], current_ids=P["ids"]), k)) for k in "ABCD"]
     A["circuit_ssm_defaults"] = lambda P: [canon(getattr(cssm.state_space_model(P["tcirc"]), k)) for k in "ABCD"]
     A["transform_circuit"] = lambda P: [net_dump(cc.transform_circuit(P["circ"], w)) for w in (0.0, 2.0, 0.5)]
-    A["transform_list"] = lambda P: [net_dump(n) for n in cc.transform(P["circ"], P["w_list"])]
+    A["transform_list"] = lambda P: Raw(cc.transform(P["circ"], P["w_list"]), lambda nets: [net_dump(n) for n in nets])
     A["transform_default"] = lambda P: [net_dump(n) for n in cc.transform(P["circ"])]
     A["frequency_components"] = lambda P: canon(cc.frequency_components(P["circ"], 2.2))
     c_nodes, c_ids = ["0", "1", "2", "3", "4"], ["Vs", "R1", "C1", "L1", "R2", "Is", "Vp", "R3"]
@@ -269,21 +284,59 @@ def alphabet():
             out.append([[canon(fs.amplitude(n)), canon(fs.phase(n)), canon(fs.c(-n))] for n in range(4)])
         return out
     A["fourier_series"] = four
-    A["load_network"] = lambda P: net_dump(loaders.load_network(P["ndesc"]))
+    A["load_network"] = lambda P: Raw(loaders.load_network(P["ndesc"]), net_dump)
     A["to_complex_polar"] = lambda P: canon(loaders.to_complex(P["zpolar"]))
     A["to_complex_degree"] = lambda P: canon(loaders.to_complex(P["zpolar"], degree=True))
     A["generate_component"] = lambda P: [canon(cdl.generate_component(e)) for e in P["cdoc"]["components"]]
     A["undictify_circuit"] = lambda P: canon(cdl.undictify_circuit(P["cdoc"]).components)
-    A["undictify_all"] = lambda P: canon(dl.undictify_all_complex_values(P["docj"]))
-    A["dictify_all"] = lambda P: canon(dl.dictify_all_complex_values(P["docc"]))
-    A["serialize_roundtrip_json"] = lambda P: canon(dl.deserialize(dl.serialize(P["docc"], "json"), "json"))
-    A["serialize_roundtrip_yaml"] = lambda P: canon(dl.deserialize(dl.serialize(P["docc"], "yaml"), "yaml"))
+    A["undictify_all"] = lambda P: Raw(dl.undictify_all_complex_values(P["docj"]))
+    A["dictify_all"] = lambda P: Raw(dl.dictify_all_complex_values(P["docc"]))
+    A["serialize_roundtrip_json"] = lambda P: Raw(dl.deserialize(dl.serialize(P["docc"], "json"), "json"))
+    A["serialize_roundtrip_yaml"] = lambda P: Raw(dl.deserialize(dl.serialize(P["docc"], "yaml"), "yaml"))
+    A["deserialize_circuit_text"] = lambda P: Raw(cdl.undictify_circuit(dl.deserialize(CIRCUIT_TEXT, "json")).components)
     return A
+
+
+CIRCUIT_TEXT = '{"components": [{"type": "resistor", "id": "R1", "nodes": ["1", "0"], "value": {"R": 5}}, {"type": "impedance", "id": "Z1", "nodes": ["1", "0"], "value": {"Z": {"real": 1.0, "imag": 2.0}}}]}'
+
+
+class Raw:
+    """an operation result kept as the object the library returned: the harness canonicalises it and then SCRIBBLES on it
+    (clears lists and dictionaries, overwrites arrays), as a caller is free to do with what it was given; a library that hands
+    out a cached or aliased object will then give a different answer next time"""
+    def __init__(self, obj, dump=None):
+        self.obj = obj
+        self.dump = dump or canon
+
+
+def scribble(x, depth=0):
+    if depth > 4:
+        return
+    if isinstance(x, dict):
+        for v in list(x.values()):
+            scribble(v, depth + 1)
+        x.clear()
+        x["scribbled"] = True
+    elif isinstance(x, list):
+        for v in list(x):
+            scribble(v, depth + 1)
+        x.clear()
+        x.append("scribbled")
+    elif isinstance(x, np.ndarray):
+        if x.flags.writeable and x.dtype.kind in "fc":
+            x[...] = 1e300
+    elif dataclasses.is_dataclass(x) and not isinstance(x, type):
+        # Network, Branch, Component, ... are (frozen) value objects that may legitimately share their parts with the
+        # objects they were derived from (switch_ground_node, a contraction that contracts nothing): not a caller's to edit
+        return
+    elif isinstance(x, tuple):
+        for v in x:
+            scribble(v, depth + 1)
 
 
 SHARED_ARG_OPS = ["remove_short_keep", "remove_short_default", "zero_v_keep", "zero_v_default", "zero_i_keep", "remove_ideal_v_keep", "passive_keep", "passive_default",
                   "nodal_ssm_shared_dicts", "nodal_ssm_defaults", "transform_list", "transform_default", "transient_solution", "impedance_sweep_default",
-                  "load_network", "to_complex_degree", "undictify_circuit", "undictify_all", "dictify_all", "serialize_roundtrip_json"]
+                  "load_network", "to_complex_degree", "undictify_circuit", "undictify_all", "dictify_all", "serialize_roundtrip_json", "deserialize_circuit_text"]
 
 
 # ------------------------------------------------------------------ running histories in forked children
@@ -300,7 +353,13 @@ def run_history_in_child(ops):
             out = []
             for name in ops:
                 try:
-                    res = ("ok", hashlib.sha1(json.dumps(A[name](P), sort_keys=True, default=repr).encode()).hexdigest())
+                    r_ = A[name](P)
+                    if isinstance(r_, Raw):
+                        dumped = r_.dump(r_.obj)
+                        res = ("ok", hashlib.sha1(json.dumps(dumped, sort_keys=True, default=repr).encode()).hexdigest())
+                        scribble(r_.obj)
+                    else:
+                        res = ("ok", hashlib.sha1(json.dumps(r_, sort_keys=True, default=repr).encode()).hexdigest())
                 except Exception as e:
                     res = ("exc", "%s: %s" % (type(e).__name__, str(e)[:200]))
                 now = dict(library_fingerprint())
@@ -409,13 +468,16 @@ def judge_history(ops, res):
             add_violation(res, "result_equals_isolation", case, iso[name][0][1][:12], r[1][:200],
                           "step %d (%s) gives a different result after %s than in isolation" % (step, name, ops[:step]), kind="history_dependent_result")
             return
-        bump(res["hits"], "returns_to_initial_state")
-        if changed:
-            pool_changed = [k for k in changed if k.startswith("pool.")]
-            sub = "arguments_unmutated" if pool_changed else "returns_to_initial_state"
-            add_violation(res, sub, dict(case, history=list(ops[:step + 1])), "unchanged", detail,
-                          "%s left mutable state behind: %s" % (name, changed[:4]), kind="mutated:" + ",".join(changed[:2]))
+        bump(res["hits"], "arguments_unmutated")
+        pool_changed = [k for k in changed if k.startswith("pool.")]
+        if pool_changed:
+            add_violation(res, "arguments_unmutated", dict(case, history=list(ops[:step + 1])), "unchanged", {k: v for k, v in detail.items() if k.startswith("pool.")} or detail,
+                          "%s modified an object it was given: %s" % (name, pool_changed[:4]), kind="mutated:" + ",".join(pool_changed[:2]))
             return
+        if changed:
+            # state inside the library changed (e.g. a cache was filled).  That alone breaks nothing the property states; it makes
+            # the state graph larger, and the histories below are what decides whether any answer depends on it.
+            bump(res["extra"].setdefault("library_state_changes", {}), name + ": " + ",".join(c.split("CircuitCalculator.")[-1] for c in changed[:2]))
     bump(res["hits"], {1: "one_step", 2: "two_step_histories", 3: "three_step_shared_arg_histories", 4: "four_step_shared_arg_histories"}[len(ops)])
     if len(res["samples"]) < 2 and len(ops) == 3:
         res["samples"].append({"history": list(ops)})
@@ -423,7 +485,7 @@ def judge_history(ops, res):
 
 def vacuity(agg, tier):
     out = []
-    for k in ("result_equals_isolation", "returns_to_initial_state", "one_step", "two_step_histories", "three_step_shared_arg_histories"):
+    for k in ("result_equals_isolation", "arguments_unmutated", "one_step", "two_step_histories", "three_step_shared_arg_histories"):
         if agg["hits"].get(k, 0) == 0:
             out.append("sub-check %s never fired" % k)
     return out
